@@ -599,6 +599,8 @@ class Woven:
         self.probes = []
         self.assumes = []
         self.expects = []
+        self.hint_probes = []
+        self.twin = False
         self.flags = {}
         self.inline_buf = []
 
@@ -778,20 +780,55 @@ def _flush_inline(w):
         return
     if s.endswith("\n"):
         s = s[:-1]
-    for k, ln in enumerate(s.split("\n")):
+    out_lines = []
+    for ln in s.split("\n"):
         mm = re.search(r"//.*?((?:@C\d+\.[A-Za-z0-9_.\-]+\s*)+)$", ln)     # (the comment may contain '/')
         if mm and ln.split("//")[0].strip():
+            code = ln.split("//")[0].strip()
+            ante = _hint_antecedent(code)
+            if getattr(w, "twin", False) and ante is not None:
+                # vacuity twin: the hint's antecedent must be SATISFIABLE where the hint stands (an `assert(A ==> B)` that an
+                # edit moved into a branch where A never holds proves nothing): `assert(!(fresh && A))` has to fail here (what
+                # Verus assumes after the failure, `fresh ==> !A`, constrains nothing: `fresh` is a new uninterpreted constant).
+                k_ = len(w.hint_probes)
+                w.probes.append("pub uninterp spec fn vacuity_hint_branch_%d() -> bool;" % k_)
+                w.clauses.append({"line_start": w.cur_line() + len(out_lines), "line_end": w.cur_line() + len(out_lines),
+                                  "labels": ["HINTVAC", "HINTVAC#%d" % k_], "kind": "hint", "fn": None, "item": None, "text": code})
+                w.hint_probes.append({"n": k_, "text": code, "labels": re.findall(r"@(C\d+\.[A-Za-z0-9_.\-]+)", mm.group(1))})
+                out_lines.append("assert(!(vacuity_hint_branch_%d() && (%s)));" % (k_, ante))
             # labelled proof hint inserted into a function body: a failing assert / lemma call on
             # this line is reported under the label
-            w.clauses.append({"line_start": w.cur_line() + k, "line_end": w.cur_line() + k,
+            w.clauses.append({"line_start": w.cur_line() + len(out_lines), "line_end": w.cur_line() + len(out_lines),
                               "labels": re.findall(r"@(C\d+\.[A-Za-z0-9_.\-]+)", mm.group(1)),
                               "kind": "hint", "fn": None, "item": None, "text": " ".join(ln.split("//")[0].split())})
-    w.add(s)
+        out_lines.append(ln)
+    w.add("\n".join(out_lines))
+
+
+def _hint_antecedent(code):
+    """`assert(A ==> B);` -> A; `assert(B);` -> `true` (the point itself must be reachable); anything else -> None"""
+    mm = re.match(r"assert\((.*)\);$", code, re.S)
+    if not mm:
+        return None
+    e = mm.group(1)
+    depth = 0
+    i = 0
+    while i < len(e):
+        c = e[i]
+        if c in "([{":
+            depth += 1
+        elif c in ")]}":
+            depth -= 1
+        elif depth == 0 and e.startswith("==>", i) and not e.startswith("<==>", i - 1):
+            return e[:i].strip()
+        i += 1
+    return "true"
 
 
 def expand(unit_path, twin=False, repo=None):
     repo = repo or REPO
     w = Woven()
+    w.twin = twin
     lines = open(unit_path).read().split("\n")
     flags = {"f32": False, "fmt": False, "strlit": False, "inspect_err": False, "strmatch": False, "plain": False, "continue": False}
     w.flags = flags
